@@ -480,7 +480,7 @@ def fclose(a: float, model: str, tol=FTOL) -> bool:
 
 def gen_v2_pool(rng):
     """(pool dict, class)"""
-    lp = rng.choice([3000.0, 65000.0, 1.0, round(_logu(rng, -2, 5), rng.randint(0, 6))])
+    lp = rng.choice([3000.0, 65000.0, 1.0, max(0.01, round(_logu(rng, -2, 5), rng.randint(0, 6)))])
     sp = rng.choice([1.0, 1.0, 0.9993, round(rng.uniform(0.9, 1.1), 6)])
     long_usd = _logu(rng, 3, 9)
     skew = rng.choice([0.01, 0.5, 0.9, 1.0, 1.0, 1.1, 2.0, 50.0])
